@@ -110,18 +110,60 @@ Print Assumptions concrete_uncovered_kind_stale.
 Example full_manifest_covers : covers all_kinds (KDeps :: relevant_kinds) = true.
 Proof. reflexivity. Qed.
 
-(* the manifest of the pinned tree (F9: no embedded files, no LLGoFiles C files, no
-   expanded environment, stat-only file digests) on the 4-package module of the harness
-   main -> a -> b -> c:  editing the embedded file of package a goes stale, editing the
-   Go file of c does not and re-fingerprints a through b. *)
-Definition pinned_manifest : list kind :=
-  [KPkgId; KGoFiles; KAltGoFiles; KOtherFiles; KTags; KRewrites; KOptLevel; KAbiMode;
-   KEnvListed; KTarget; KToolchain; KCompiler; KDeps].
+(* ---------- the manifest of the real tree ----------
+   [tree_manifest fixed]: the kinds collect.go / fingerprint.go put into the manifest.
+   fixed = true is the code that exists now (after the four C13 fixes: embedded files by
+   content, the C files named by LLGoFiles, the flags the LLGoFiles prefix expands to, and a
+   sha256 of every on-disk source file next to path/size/mtime); fixed = false is the tree
+   before them (F9).  check.py re-derives the list from the sources on every run and Coq
+   checks the generated list against [covers].  ([tree_manifest] is defined in Model.v.) *)
+(* the fixed manifest covers every relevant kind and the dependency section ... *)
+Theorem fixed_manifest_covers : covers (tree_manifest true) (KDeps :: relevant_kinds) = true.
+Proof. reflexivity. Qed.
+Print Assumptions fixed_manifest_covers.
 
-Example pinned_uncovered :
-  uncovered pinned_manifest (KDeps :: relevant_kinds)
+(* ... so (concrete instance) no module and no history of edits, builds and cache clears
+   goes stale with it *)
+Theorem fixed_manifest_never_stale : forall mh, stale (tree_manifest true) mh = false.
+Proof. exact (concrete_not_stale _ fixed_manifest_covers). Qed.
+Print Assumptions fixed_manifest_never_stale.
+
+(* and for every digest / compiler satisfying the premises of cache_sound *)
+Theorem fixed_manifest_cache_sound :
+  forall (key artifact : Type) (key_eqb : key -> key -> bool)
+         (digest : list value -> list key -> key) (compile : tree -> artifact),
+    (forall a b, key_eqb a b = true <-> a = b) ->
+    (forall v1 k1 v2 k2, digest v1 k1 = digest v2 k2 -> v1 = v2 /\ k1 = k2) ->
+    (forall t u, rel_eq relevant_kinds t u -> compile t = compile u) ->
+    forall (h : list step) (m : module),
+      run_cached key artifact key_eqb digest compile (tree_manifest true) m [] h
+      = run_clean artifact compile m h.
+Proof.
+  intros. eapply cache_sound_lemma; try eassumption. exact fixed_manifest_covers.
+Qed.
+Print Assumptions fixed_manifest_cache_sound.
+
+(* the tree before the fixes: four relevant kinds were missing, and each had a stale
+   history (the four recorded findings; each was confirmed end to end) *)
+Theorem prefix_manifest_uncovered :
+  uncovered (tree_manifest false) (KDeps :: relevant_kinds)
   = [KEmbedFiles; KSideCFiles; KSameStatContent; KEnvExpand].
 Proof. reflexivity. Qed.
+Print Assumptions prefix_manifest_uncovered.
+
+Theorem prefix_manifest_stale :
+  forall k, In k [KEmbedFiles; KSideCFiles; KSameStatContent; KEnvExpand] ->
+    stale (tree_manifest false) (e2e_module, [Build; EditPkg 1 k 1%N; Build]) = true.
+Proof. intros k [<-|[<-|[<-|[<-|[]]]]]; reflexivity. Qed.
+Print Assumptions prefix_manifest_stale.
+
+(* the same four histories on the harness module main -> a -> b -> c are fresh now *)
+Example fixed_histories_fresh :
+  forallb (fun k => negb (stale (tree_manifest true) (e2e_module, [Build; EditPkg 1 k 1%N; Build])))
+          [KEmbedFiles; KSideCFiles; KSameStatContent; KEnvExpand] = true.
+Proof. reflexivity. Qed.
+
+Definition pinned_manifest : list kind := tree_manifest false.
 
 Example embed_edit_stale :
   stale pinned_manifest (e2e_module, [Build; EditPkg 1 KEmbedFiles 1%N; Build]) = true.
